@@ -123,6 +123,21 @@ t_ctxop(void *a)
 	}
 	return NULL;
 }
+// opening (and closing) a further context: the new context must either be refused or be fully
+// owned by the caller - never left behind on a socket that is being closed
+static void *
+t_ctxopen(void *a)
+{
+	(void) a;
+	nng_ctx c2;
+	rv_ctxop = nng_ctx_open(&c2, S);
+	if (rv_ctxop == 0) {
+		int rv = nng_ctx_close(c2);
+		if (rv != 0 && rv != NNG_ECLOSED && rv != NNG_ENOENT)
+			vs_fail("C10:close-result", "nng_ctx_close of a fresh context -> %d", rv);
+	}
+	return NULL;
+}
 static void *
 t_close(void *a)
 {
@@ -219,8 +234,9 @@ run_close(void *arg)
 		}
 		use_recv = use_send = use_ctx = 0;
 		use_ctxop           = 1;
+		int opener          = vs_choose(VK_ENV, 2);
 		vs_window(1);
-		pthread_create(&to, NULL, t_ctxop, NULL);
+		pthread_create(&to, NULL, opener ? t_ctxopen : t_ctxop, NULL);
 		pthread_create(&tk1, NULL, t_close, &rv_close1);
 	} else if (c->what == W_ISSUE) {
 		// operations are issued inside the window, racing with close
